@@ -46,4 +46,9 @@ META = {
         note="Trusted: Lean kernel; process-death model = directory copy between calls (no torn writes / power loss); Store.OS wrapper and verif crash-point hook; recovery model tied by clean-restart correspondence.",
         technique="Lean 4 theorems on rollback/re-apply at image level + exhaustive crash-point enumeration on the real code judged by Lean spec predicates",
     ),
+    "C16": dict(
+        text="Lean 4 proofs that an import transaction applied to any previous image yields exactly the imported image, that the engine model refuses unusable imports (non-primary, not a database, other page size) before touching anything, and that export without WAL overlay returns the file's pages; differential suite importing valid, truncated and garbage images into absent / empty / dropped / populated (journal, WAL with pending frames) databases on a real primary with export, restart-after-refusal and follow-up transactions.",
+        note="Trusted: Lean kernel; engine model tied by the import suite. Four genuine defects found by this suite were repaired in /repo (see known_findings.jsonl).",
+        technique="Lean 4 theorems (image-level replace law, refusal frame lemmas) + differential import/export suite on the real DB",
+    ),
 }
